@@ -32,7 +32,9 @@ import (
 
 var replayFile = flag.String("replay", "", "replay one recorded case (no explorer)")
 
-const watchdog = 120 * time.Second
+// a decode takes microseconds (the worst count-driven loops found take seconds); a worker
+// that shows no progress for this long is reported as hung
+const watchdog = 300 * time.Second
 const vlimitKB = 4000000
 
 // ---------------------------------------------------------------- worker handle
@@ -225,7 +227,7 @@ func deathKey(d *death, kind string) (key, what string) {
 	case strings.Contains(s, "nil pointer dereference") && strings.Contains(s, "BuildTxListExt.func"):
 		return "block/nil-element-kills-process", "Block.BuildTxListExt(true) hashes the transactions in goroutines; a transaction that btc.NewTx decoded to a Tx holding a nil *TxIn/*TxOut makes such a goroutine panic (nil pointer dereference), which no caller can recover: the process dies"
 	case d.hung:
-		return "hang/no-progress-120s", "the decode did not return within 120 s"
+		return "hang/no-progress-300s", "the decode did not return within 300 s"
 	case strings.Contains(s, "out of memory") || strings.Contains(s, "cannot allocate memory"):
 		if kind == "block" && strings.Contains(s, "BuildTxListExt") && !strings.Contains(s, "btc.NewTx(") {
 			return "block/txcount-driven-fatal-oom", "the process dies with a fatal (unrecoverable) out-of-memory error under ulimit -v 4 GB: Block.BuildTxListExt does make([]*Tx, TxCount) with the count from the wire (" + normPanic(head) + ")"
@@ -766,6 +768,8 @@ func main() {
 		"block_bases":                            len(blocks),
 		"jobs":                                   totalJobs,
 		"short_string_max_len":                   shortMax,
+		"max_inputs_outputs_per_base":            map[bool]int{false: 2, true: 3}[thor],
+		"max_txs_per_block_base":                 map[bool]int{false: 2, true: 3}[thor],
 		"reference_vectors_validated":            nvec,
 		"alloc_bound":                            "TotalAlloc delta of the decode <= 64*len + 64 KiB",
 		"max_alloc_fraction_of_bound_on_accepted_decodes": s.maxFrac,
